@@ -57,7 +57,11 @@ func genBatchModel(r *gen.R) *batchModel {
 		p.addInput(cur, uniformT(r, ref.F32, []int{N0, r.Range(1, 3), r.Range(3, 6), r.Range(3, 6)}, 1), nil)
 	case 3:
 		cur = "heads"
-		p.addInput(cur, uniformT(r, ref.F32, []int{N0, r.Range(2, 3), r.Range(1, 3), r.Range(1, 4)}, 1), nil)
+		if r.Chance(0.4) { // two stacking axes in front of the matrices (rank 5)
+			p.addInput(cur, uniformT(r, ref.F32, []int{N0, r.Range(2, 3), r.Range(2, 3), r.Range(1, 3), r.Range(1, 4)}, 1), nil)
+		} else {
+			p.addInput(cur, uniformT(r, ref.F32, []int{N0, r.Range(2, 3), r.Range(1, 3), r.Range(1, 4)}, 1), nil)
+		}
 	default:
 		cur = "seq"
 		axis = 1
@@ -118,7 +122,7 @@ func genBatchModel(r *gen.R) *batchModel {
 	}
 	if fam == 3 { // multi-head product: X (N, heads, m, k) x W (heads, k, n) / (1, heads, k, n) / (k, n)
 		xv := p.Values[cur]
-		h, k, n := xv.Shape[1], xv.Shape[3], r.Range(1, 4)
+		h, k, n := xv.Shape[xv.Rank()-3], xv.Shape[xv.Rank()-1], r.Range(1, 4)
 		w := p.addInit("Wh", p.smallWeights(r.PickShape([]int{h, k, n}, []int{1, h, k, n}, []int{h, k, n}, []int{k, n}), 1))
 		add(progNode{G: mon.GNode{Op: "MatMul", Inputs: []string{cur, w}}, Mode: CmpTol, Eval: approxEval(func(in []*ref.T) (*ref.Approx, error) { return ref.MatMul(in[0], in[1]) })}, 0)
 		outs = append(outs, cur)
@@ -134,11 +138,22 @@ func genBatchModel(r *gen.R) *batchModel {
 		if r.Chance(0.6) {
 			opt[0] = p.addInit("B", p.smallWeights([]int{1, 2 * G * H}, 0.5))
 		}
+		if r.Chance(0.08) { // per-sample sequence lengths supplied by the caller (refused, or honoured per sample)
+			opt[1] = "lens"
+			p.Inputs = append(p.Inputs, mon.GInput{Name: "lens", DT: ref.I32, Dims: []mon.Dim{{Param: "N"}}})
+			lens := ref.New(ref.I32, N0)
+			for i := range lens.Bits {
+				lens.Bits[i] = uint64(xv.Shape[0])
+			}
+			p.Feed["lens"], p.Values["lens"] = lens, lens
+			p.BatchAxis["lens"] = 0
+			extraInputs = append(extraInputs, batchedInput{name: "lens", shape: []int{N0}, axis: 0, seqLen: xv.Shape[0]})
+		}
 		if r.Chance(0.5) { // batched initial state supplied by the caller
 			opt[2] = "h0"
 			p.addInput("h0", uniformT(r, ref.F32, []int{1, N0, H}, 1), []mon.Dim{{Value: 1}, {Param: "N"}, {Value: int64(H)}})
 			p.BatchAxis["h0"] = 1
-			extraInputs = append(extraInputs, batchedInput{"h0", []int{1, N0, H}, 1})
+			extraInputs = append(extraInputs, batchedInput{name: "h0", shape: []int{1, N0, H}, axis: 1})
 		}
 		nOpt := 3
 		if op == "LSTM" {
@@ -147,7 +162,7 @@ func genBatchModel(r *gen.R) *batchModel {
 				opt[3] = "c0"
 				p.addInput("c0", uniformT(r, ref.F32, []int{1, N0, H}, 1), []mon.Dim{{Value: 1}, {Param: "N"}, {Value: int64(H)}})
 				p.BatchAxis["c0"] = 1
-				extraInputs = append(extraInputs, batchedInput{"c0", []int{1, N0, H}, 1})
+				extraInputs = append(extraInputs, batchedInput{name: "c0", shape: []int{1, N0, H}, axis: 1})
 			}
 			if r.Chance(0.6) {
 				opt[4] = p.addInit("P", p.smallWeights([]int{1, 3 * H}, 0.5))
@@ -313,6 +328,15 @@ func genBatchModel(r *gen.R) *batchModel {
 		for _, e := range extraInputs {
 			es := append([]int{}, e.shape...)
 			es[e.axis] = b
+			if e.seqLen > 0 {
+				l := ref.New(ref.I32, b)
+				for i := range l.Bits {
+					l.Bits[i] = uint64(r.Range(1, e.seqLen))
+				}
+				l.Bits[0] = uint64(e.seqLen)
+				feed[e.name] = l
+				continue
+			}
 			feed[e.name] = uniformT(r, ref.F32, es, 1)
 		}
 		return feed
@@ -321,9 +345,10 @@ func genBatchModel(r *gen.R) *batchModel {
 }
 
 type batchedInput struct {
-	name  string
-	shape []int
-	axis  int
+	name   string
+	shape  []int
+	axis   int
+	seqLen int // > 0: an int32 list of per-sample sequence lengths (the first one is the full length)
 }
 
 // takeRows selects rows along an axis.
